@@ -42,11 +42,17 @@ NVAR = 4
 
 # ------------------------------------------------------------------ generated interface types
 
+UPPER_U = 'ΩÄÉЖΣÑ'          # non-ASCII upper-case first letters: exported although byte-wise greater than every ASCII name
+LOWER_U = 'αβñжéω'
+ALNUM_U = ALNUM + 'äéωжΩ'
+
+
 def gen_name(rng, exported):
     while True:
-        n = rng.choice(UPPER if exported else LOWER)
+        uni = rng.below(6) == 0
+        n = rng.choice((UPPER_U if uni else UPPER) if exported else (LOWER_U if uni else LOWER))
         for _ in range(rng.below(4)):
-            n += rng.choice(ALNUM)
+            n += rng.choice(ALNUM_U if uni or rng.below(8) == 0 else ALNUM)
         if n not in GO_KEYWORDS and n not in ('String', 'Error'):
             return n
 
@@ -74,6 +80,18 @@ def gen_types(rng, n):
             if all(s != 2 for _, s in decl[a:b]):
                 emb = (a, b)
         types.append({'id': tid, 'decl': decl, 'emb': emb})
+    return types
+
+
+def gen_wide_types(rng, n, first_id):
+    """Interfaces with 100..130 methods (beyond 99, well inside hack.MaxMethod)."""
+    types = []
+    for i in range(n):
+        nm = 100 + rng.below(31)
+        names = {}
+        while len(names) < nm:
+            names.setdefault(gen_name(rng, rng.below(3) > 0) + str(len(names)), rng.below(2))
+        types.append({'id': first_id + i, 'decl': list(names.items()), 'emb': None})
     return types
 
 
@@ -145,7 +163,7 @@ def go_types_source(types):
 # ------------------------------------------------------------------ reference facts about a type (spec side, not the model)
 
 def is_exported(n):
-    return 'A' <= n[0] <= 'Z'
+    return n[0].isupper()
 
 
 def sorted_methods(decl):
@@ -164,7 +182,9 @@ def T_tok(t):
 # ------------------------------------------------------------------ histories
 
 def gen_history(rng, types, lane):
-    """One history line + its spec-level description.  lane: 'plain' | 'gc' | 'malformed'."""
+    """One history line.  lane: 'plain' | 'gc' | 'malformed' | 'kept' | 'kept-multi'.
+    'kept*': some variables are mocked only through the CachedInterfaceMocker handle kept from the first Interface(&v);
+    after a Reset such a variable is re-mocked once ('kept') or several times ('kept-multi', the known finding F14)."""
     ta = rng.choice(types)
     tys = [ta]
     if rng.below(2):
@@ -180,11 +200,14 @@ def gen_history(rng, types, lane):
                 break
         per_type[t['id']] = per_type.get(t['id'], 0) + 1
         vars_.append((t, 0 if rng.below(2) else 1 + rng.below(9), 0 if rng.below(4) else 1))   # type, init, owner builder
+    kept = lane.startswith('kept')
+    handle = [kept and (v == 0 or rng.below(2) == 0) for v in range(len(vars_))]
     toks = [T_tok(t) for t in {t['id']: t for t in tys}.values()] + [f'V:{t["id"]}:{init}' for t, init, _ in vars_]
     ops = []
     k = 0
     dropped = set()
-    life = {}          # (v, method) -> has a When in the current life of its mocker
+    life = {}          # (v, method) -> its mocker has a When (since its last Apply / Reset)
+    canceled = {}      # handle-mode var -> number of re-mocks since its context was canceled (None: context live)
     nops = 3 + rng.below(12)
 
     def observe_all():
@@ -201,19 +224,29 @@ def gen_history(rng, types, lane):
         r = rng.below(100)
         alive = [b for b in (0, 1) if b not in dropped]
         cand = [v for v, (_, _, ow) in enumerate(vars_) if ow in alive]
-        if r < 70 and cand:
+        if r < (60 if kept else 70) and cand:
             v = rng.choice(cand)
             t, _, b = vars_[v]
+            if handle[v] and canceled.get(v) is not None and canceled[v] >= (3 if lane == 'kept-multi' else 1):
+                continue
+            h = 'h' if handle[v] else ''
             srt = sorted_methods(t['decl'])
             sig = dict(t['decl'])
             if lane == 'malformed' and rng.below(4) == 0:
                 m = rng.choice(['Nope', '', 'zz9', srt[0] + 'x'])
                 if m in sig:
                     m = 'Nope'
-                ops.append(f'ap:{b}:{v}:{m}:{k}')
+                ops.append(f'{h}ap:{b}:{v}:{m}:{k}')
                 k += 1
                 continue
             m = rng.choice(srt)
+            if rng.below(12 if lane != 'malformed' else 3) == 0 and not life.get((v, m)):
+                # a callback whose signature does not fit: must be rejected and must leave no trace
+                ops.append(f'{h}{rng.choice(["apx", "apx", "rtx"])}:{b}:{v}:{m}:{k}')
+                k += 1
+                if rng.below(2) == 0:
+                    observe_all()
+                continue
             kinds = ['ap', 'ap', 'rt', 'wn'] if not life.get((v, m)) else ['ap']
             kind = rng.choice(kinds)
             if kind == 'wn' and sig[m] == 2:
@@ -221,11 +254,12 @@ def gen_history(rng, types, lane):
             if kind == 'wn':
                 x = 7 + srt.index(m)
                 a = x if rng.below(3) else x + 1 + rng.below(3)
-                ops.append(f'wn:{b}:{v}:{m}:{k}:{a}')
+                ops.append(f'{h}wn:{b}:{v}:{m}:{k}:{a}')
             else:
-                ops.append(f'{kind}:{b}:{v}:{m}:{k}')
-            if kind != 'ap':
-                life[(v, m)] = True
+                ops.append(f'{h}{kind}:{b}:{v}:{m}:{k}')
+            life[(v, m)] = kind != 'ap'            # Apply drops the When (iface.go:94)
+            if handle[v] and canceled.get(v) is not None:
+                canceled[v] += 1
             k += 1
             if rng.below(3) == 0:
                 observe_all()
@@ -234,10 +268,13 @@ def gen_history(rng, types, lane):
             ops.append(f'rs:{b}')
             for key in [key for key in life if vars_[key[0]][2] == b]:
                 del life[key]
+            for v, (_, _, ow) in enumerate(vars_):
+                if ow == b and handle[v]:
+                    canceled[v] = 0
             observe_all()
         elif r < 90:
             observe_all()
-        elif lane == 'gc':
+        elif lane == 'gc' or (kept and rng.below(3) == 0):
             if alive and rng.below(2):
                 b = rng.choice(alive)
                 ops.append(f'dr:{b}')
@@ -254,7 +291,44 @@ def gen_history(rng, types, lane):
     for v in range(len(vars_)):
         if f'wd:{v}' != ops[-1]:
             ops.append(f'wd:{v}')
+    if rng.below(2) == 0:                       # Reset at the very end must restore every variable of a live builder
+        for b in (0, 1):
+            if b not in dropped:
+                ops.append(f'rs:{b}')
+        for v in range(len(vars_)):
+            ops.append(f'wd:{v}')
     return 'c07.hist ' + ' '.join(toks + ops)
+
+
+def wide_sweep(t, rng):
+    """Wide interface: mocks at low / middle / around 99 / last positions, every method called."""
+    srt = sorted_methods(t['decl'])
+    n = len(srt)
+    pos = sorted({0, 1, n // 2, 97, 98, 99, 100, n - 2, n - 1, rng.below(n), rng.below(n)})
+    line = f'c07.hist {T_tok(t)} V:{t["id"]}:0 V:{t["id"]}:6 mx ca:1'
+    k = 0
+    for p_ in pos:
+        kind = rng.choice(['ap', 'rt'])
+        line += f' {kind}:0:0:{srt[p_]}:{k}'
+        k += 1
+    line += ' ca:0 ca:1 wd:0 rs:0 wd:0 wd:1'
+    line += f' ap:0:0:{srt[n - 1]}:{k} ca:0 rs:0 wd:0'
+    return line
+
+
+def kind_of(tok):
+    """(kept handle?, kind, fits?) of a mock token"""
+    kd = tok
+    via = kd.startswith('h')
+    if via:
+        kd = kd[1:]
+    fits = not kd.endswith('x')
+    if not fits:
+        kd = kd[:-1]
+    return via, kd, fits
+
+
+MOCKS = {'ap', 'rt', 'wn', 'apx', 'rtx', 'hap', 'hrt', 'hwn', 'hapx', 'hrtx'}
 
 
 def parse_line(line):
@@ -290,13 +364,16 @@ def spec_expect(line):
     exp = []
     for f in ops:
         o = f[0]
-        if o in ('ap', 'rt', 'wn'):
+        if o in MOCKS:
             b, v, m, k = int(f[1]), int(f[2]), f[3], int(f[4])
+            _, o, fits = kind_of(o)
             decl = dict(decls[vars_[v][0]])
             if m == '':
                 exp.append((f, 'panic:method-is-empty'))
             elif m not in decl:
                 exp.append((f, 'panic:nomethod'))
+            elif not fits:
+                exp.append((f, 'panic:applyerr'))       # rejected: nothing may change
             else:
                 mocked[v][m] = (o, k, int(f[5]) if o == 'wn' else None)
                 active[v] = True
@@ -340,7 +417,32 @@ def spec_expect(line):
             exp.append((f, 'fake' if active[v] else ('nil' if vars_[v][1] == 0 else f'impl{vars_[v][1]}')))
         elif o == 'od':
             exp.append((f, ','.join(sorted_methods(decls[int(f[1])]))))
+        elif o == 'mx':
+            exp.append((f, ('any',)))
     return exp
+
+
+def f14_pattern(line):
+    """History re-mocks >= 2 different methods of one variable through a kept handle after a Reset (known finding F14)."""
+    _, _, ops = parse_line(line)
+    since = {}      # var -> set of methods h-mocked since the last reset of a canceled context
+    armed = set()
+    owner = {}
+    for f in ops:
+        if f[0] in MOCKS:
+            via, _, fits = kind_of(f[0])
+            v = int(f[2])
+            owner[v] = int(f[1])
+            if via and fits and v in armed:
+                since.setdefault(v, set()).add(f[3])
+                if len(since[v]) >= 2:
+                    return True
+        elif f[0] == 'rs':
+            for v, b in owner.items():
+                if b == int(f[1]):
+                    armed.add(v)
+                    since[v] = set()
+    return False
 
 
 def oracle(line, obs):
@@ -353,6 +455,8 @@ def oracle(line, obs):
         return f'observation has {len(got)} entries, history has {len(exp)} observable ops ({obs[:80]})', 'shape'
     for (f, want), g in zip(exp, got):
         op = ':'.join(f)
+        if isinstance(want, tuple) and want[0] == 'any':
+            continue
         if isinstance(want, tuple):
             fin = [int(x) for x in g.split('=', 1)[1].split(',') if x] if '=' in g else None
             if fin is None:
@@ -465,6 +569,13 @@ CORPUS = [  # minimised past failures (F11, F9) and hand-written shapes, always 
     'c07.hist T:9001:b/0,String/2,_x/1,Zed/0 V:9001:4 od:9001 ca:0 wn:0:0:_x:0:9 ap:0:0:String:1 ca:0 rs:0 wd:0 ca:0 rt:0:0:Zed:2 ca:0 rs:0 wd:0',
     # two builders, variables of the same type owned by different builders
     'c07.hist T:9000:M/0,JOT/0,Ek1/1 V:9000:0 V:9000:2 ap:0:0:M:0 ap:1:1:M:1 ca:0 ca:1 rs:1 ca:0 ca:1 wd:1 dr:0 gc ca:0',
+    # kept handle after Reset: only the re-mocked method is mocked, the old replacements are gone; next Reset restores
+    'c07.hist T:9000:M/0,JOT/0,Ek1/1 V:9000:4 hap:0:0:M:0 hrt:0:0:JOT:1 hap:0:0:Ek1:2 ca:0 rs:0 wd:0 hap:0:0:JOT:3 ca:0 wd:0 rs:0 wd:0 ca:0',
+    # rejected Apply (signature does not fit) then Reset, with a correctly mocked second variable
+    'c07.hist T:9000:M/0,JOT/0,Ek1/1 V:9000:0 V:9000:7 apx:0:0:M:0 wd:0 ap:0:1:JOT:1 rtx:0:0:Ek1:2 ca:0 ca:1 rs:0 wd:0 wd:1 ca:1',
+    'c07.hist T:9000:M/0,JOT/0,Ek1/1 V:9000:3 apx:0:0:JOT:0 rs:0 wd:0 ca:0',
+    # exported non-ASCII names sort before unexported ASCII ones although byte-wise greater
+    'c07.hist T:9002:ab/0,Ωmega/0,zz/1,Ärger/0,αβ/0,ñ/1,Éa/2 V:9002:0 V:9002:2 od:9002 ap:0:0:ab:0 ca:0 rt:0:0:zz:1 wn:0:0:ñ:2:13 ap:0:0:Ωmega:3 ca:0 ca:1 rs:0 wd:0 ap:0:1:αβ:4 ca:1',
 ]
 
 
@@ -480,7 +591,8 @@ def run(tier):
     proof = C.prove('C07', leanchecker=(tier == 'thorough'))
     ntypes, per = (200, 6) if tier == 'quick' else (1500, 20)
     types = gen_types(rng.fork('types'), ntypes)
-    binary = build_probe(types + types_from_lines(CORPUS))
+    wide = gen_wide_types(rng.fork('wide'), 3 if tier == 'quick' else 12, 8000)
+    binary = build_probe(types + wide + types_from_lines(CORPUS))
     hr = rng.fork('hist')
     ops = list(CORPUS)
     lanes = {'corpus': len(CORPUS)}
@@ -495,9 +607,13 @@ def run(tier):
         base += ' wd:0 wd:1 rs:0 wd:0 wd:1 ca:1'
         ops.append(base)
         lanes['sweep'] = lanes.get('sweep', 0) + 1
+    for t in wide:                             # wide interfaces: positions below / at / above 99, last; calls of unmocked high slots
+        for _ in range(2):
+            ops.append(wide_sweep(t, hr))
+            lanes['wide'] = lanes.get('wide', 0) + 1
     for i in range(ntypes * per):
-        r = hr.below(10)
-        lane = 'gc' if r < 3 else ('malformed' if r == 3 else 'plain')
+        r = hr.below(20)
+        lane = 'gc' if r < 5 else ('malformed' if r < 8 else ('kept' if r < 12 else ('kept-multi' if r == 12 and hr.below(4) == 0 else 'plain')))
         sub = types if hr.below(4) else types[:24]
         ops.append(gen_history(hr, sub, lane))
         lanes[lane] = lanes.get(lane, 0) + 1
@@ -511,7 +627,13 @@ def run(tier):
         if r:
             bad.append((i, r))
     seen = set()
+    known_n = 0
     for i, (why, hint) in bad:
+        if hint in ('ca', 'wd') and f14_pattern(ops[i]):
+            # several methods re-mocked through a kept handle after Reset: each Apply on the canceled context builds a fresh itab
+            known_n += 1
+            out.violation(why, {'kind': 'impl-oracle', 'ops': [ops[i]], 'observed': impl[i], 'why': why}, key='kept-handle-multi-remock')
+            continue
         if hint in seen:
             continue
         seen.add(hint)
@@ -526,7 +648,7 @@ def run(tier):
         diffs = [(i, ops[i], impl[i], model[i]) for i in range(len(ops)) if not same(impl[i], model[i] if i < len(model) else None)]
     else:
         proof['failed'].append(('goomdrv', 'driver does not build: ' + derr[-500:]))
-    if not bad:
+    if len(bad) == known_n:
         if diffs:
             i, op, a, b = diffs[0]
             out.violation('model and implementation disagree on a history', {'kind': 'correspondence', 'ops': [op], 'impl': a, 'model': b,
@@ -554,8 +676,9 @@ def run(tier):
                 if tok.startswith('fin='):
                     c = 'gc'
                     collected += len([x for x in tok[4:].split(',') if x])
-                if not re.match(r'^[A-Za-z_][A-Za-z0-9_]*(,[A-Za-z_][A-Za-z0-9_]*)*$', c) or c in ('ok', 'nil', 'fake', 'crash', 'gc', 'result'):
-                    res_classes[c] = res_classes.get(c, 0) + 1
+                if not (c.startswith('panic:') or c in ('ok', 'nil', 'fake', 'crash', 'gc', 'result', 'torn')):
+                    c = 'number' if c.isdigit() else 'method-order'
+                res_classes[c] = res_classes.get(c, 0) + 1
     dist.update({'op_kinds': opk, 'method_set_sizes': dict(sorted(sizes.items())), 'observation_classes': res_classes,
                  'unexported_methods_in_zoo': sum(1 for t in types for n, _ in t['decl'] if not is_exported(n)),
                  'types_with_embedded': sum(1 for t in types if t['emb'] or any(s == 2 for _, s in t['decl'])),
@@ -583,15 +706,15 @@ def run(tier):
 
 def shrink(binary, line, hint):
     """Delta-debugging over the ops of one history (keeping callback ids consecutive)."""
-    head = [t for t in line.split()[1:] if t[0] in 'TV']
-    ops = [t for t in line.split()[1:] if t[0] not in 'TV']
+    head = [t for t in line.split()[1:] if t[:2] in ('T:', 'V:')]
+    ops = [t for t in line.split()[1:] if t[:2] not in ('T:', 'V:')]
 
     def renum(ops):
         k = 0
         res = []
         for t in ops:
             f = t.split(':')
-            if f[0] in ('ap', 'rt', 'wn'):
+            if f[0] in MOCKS:
                 f[4] = str(k)
                 k += 1
             res.append(':'.join(f))
